@@ -5,7 +5,7 @@
    user information; git: only one optional 'ref' argument; archives: no
    'checksum', and a .tar.gz/.tgz path or a single 'archive' argument equal to
    'tgz'; a sub-path without empty, '.' or '..' segments. *)
-From Slug Require Import Base.Str Addr.Url Addr.Parse Addr.Policy Addr.ParseProofs Addr.RemoteParse Addr.RemoteTheorems.
+From Slug Require Import Base.Str Addr.Url Addr.Parse Addr.Policy Addr.ParseProofs Addr.RemoteParse Addr.RemoteTheorems Addr.Shorthand Base.PathLemmas Addr.ResolveProofs.
 
 (* every string accepted by ParseRemoteSource (shorthand, any letter case,
    explicit or implied type) *)
@@ -70,6 +70,21 @@ Theorem C07_archive_by_argument_accepted :
     = Ok (mkPkg s_https (parsed_url scheme host path (s2l "archive=tgz")), sub).
 Proof. exact grammar_archive_argument_accepted. Qed.
 Print Assumptions C07_archive_by_argument_accepted.
+
+(* the github.com / gitlab.com shorthand: accepted as git over https, ".git" added unless the
+   URL already ends in "git", everything after the repository taken as the sub-path *)
+Theorem C07_shorthand_accepted :
+  forall host org repo sub,
+    (host = s2l "github.com" \/ host = s2l "gitlab.com") ->
+    name_ok org -> name_ok repo ->
+    valid_sub sub -> plainb EPath sub = true -> all_ascii sub = true ->
+    parse_remote (shorthand_text host org repo sub)
+    = Ok (mkPkg s_git (parsed_url s_https host (slash :: org ++ slash :: shorthand_repo host org repo) []), sub).
+Proof. exact shorthand_accepted. Qed.
+Print Assumptions C07_shorthand_accepted.
+
+Example C07_shorthand_examples : shorthand_example_check = true.
+Proof. exact shorthand_examples. Qed.
 
 (* non-vacuity: accepted addresses of each shape exist, and violations of each rule are rejected *)
 Example C07_accepts :
